@@ -30,6 +30,16 @@ var sessCorpus = []struct {
 	{"i:0,m:0", "c0,o0,c1,o1,s0,s1,pi0r,pm0e,g"},        // two requests with one id: the later registration owns the slot
 	{"i:0,i:0", "c0,o0,s0,c1,o1,s1,x1,pi0r"},            // same id twice: the second call's return removes the slot
 	{"m:3", "c0,o0,s0,pm3e,g,x0,h,k0"},
+	// a response whose content cannot be read to its end: the caller reads into the error (the
+	// response closes itself) and then closes it, as UnmarshalIQ does — one close of the hand-off
+	// channel, no panic; the serve loop cannot read the rest either and Serve returns that error
+	{"i:0:e:r", "c0,o0,s0,pi0rX,g,h,d0,k0"},
+	{"i:0:e:r", "c0,o0,s0,pi0eX,g,d0,k0"},
+	{"m:0:c:e", "c0,o0,s0,pm0eX,g,h,k0"},
+	{"i:0:e:r", "c0,o0,s0,pi0rT,g,h,d0,k0"}, // the input ends in the middle of the response
+	{"i:0:c:e", "c0,o0,s0,pi0eT,g,k0"},
+	{"i:0:e:r", "c0,o0,s0,pm9nT"},
+	{"i:0:e:r,i:1:e:r", "c0,o0,c1,o1,s0,s1,pi1r,g,h,d1,k1,pi0rX,g,h,d0,k0,x1"},
 	// after a transmission that failed inside its element the output is broken for good: other
 	// waiters still get their replies or their context errors, new calls fail at once, stanzas
 	// that need no write still reach the handler, and Serve returns at its first own write
@@ -123,6 +133,8 @@ func randSched(rnd *common.Rand, n int, length int) []string {
 		case 13:
 			if rnd.Chance(1, 6) {
 				out = append(out, "C")
+			} else if rnd.Chance(1, 3) {
+				out = append(out, "d"+i, "k"+i)
 			} else {
 				out = append(out, "k"+i)
 			}
